@@ -111,8 +111,84 @@ def _deref(fi: FunctionInfo, e: ast.expr, depth: int = 3) -> ast.expr:
     return e
 
 
+_CUR: dict = {"corpus": None}
+
+
+def _use(corpus: Corpus) -> None:
+    """Remember the corpus being analysed (helper resolution needs the class hierarchy)."""
+    _CUR["corpus"] = corpus
+
+
+def _resolve_helper(fi: FunctionInfo, call: ast.Call) -> FunctionInfo | None:
+    """The package function a call ``self.h(...)`` / ``h(...)`` made in ``fi`` runs (None if not a package helper)."""
+    f = call.func
+    owner = fi
+    while owner.parent_func is not None:
+        owner = owner.parent_func
+    if isinstance(f, ast.Attribute) and _is_name(f.value, "self") and owner.cls is not None:
+        corpus = _CUR["corpus"]
+        h = corpus.lookup_method(owner.cls, f.attr) if corpus is not None else owner.cls.methods.get(f.attr)
+        if h is None:
+            return None
+        if corpus is not None and any(f.attr in sc.methods for sc in corpus.subclasses(owner.cls)):
+            raise Unsupported(f"{fi.module.site(call)}: helper self.{f.attr}() is overridden in a subclass")
+        return h
+    if isinstance(f, ast.Name):
+        h = fi.module.functions.get(f"{fi.qualname}.{f.id}") or fi.module.functions.get(f.id)
+        if h is None and _CUR["corpus"] is not None:
+            h = _CUR["corpus"].find_function(fi.module.resolve(f.id))
+        return h
+    return None
+
+
+def _bind_args(helper: FunctionInfo, call: ast.Call) -> dict[str, ast.expr]:
+    """parameter name -> argument expression (positional and keyword; no *args/**kwargs)."""
+    a = helper.node.args
+    params = [x.arg for x in a.posonlyargs + a.args]
+    if helper.cls is not None and params and params[0] in ("self", "cls") and isinstance(call.func, ast.Attribute):
+        params = params[1:]
+    if any(isinstance(x, ast.Starred) for x in call.args) or any(k.arg is None for k in call.keywords) or len(call.args) > len(params):
+        raise Unsupported(f"call `{short(call, 50)}` binds its arguments through */**")
+    out = dict(zip(params, call.args))
+    for k in call.keywords:
+        out[k.arg] = k.value
+    return out
+
+
+def _enter_helper(fi: FunctionInfo, call: ast.Call, depth: int = 0):
+    """(helper, returned expression) if ``call`` runs a package helper that only computes a value
+    (docstring, plain assignments, one return); the helper's parameters that receive the label
+    are marked so that ``_is_label`` recognises them inside the helper."""
+    if depth > 2:
+        return None
+    h = _resolve_helper(fi, call)
+    if h is None or h.is_lambda or h.fq == fi.fq:
+        return None
+    rets = []
+    for st in h.node.body:
+        if isinstance(st, ast.Expr) and isinstance(st.value, ast.Constant):
+            continue
+        if isinstance(st, ast.Assign) and all(isinstance(t, ast.Name) for t in st.targets):
+            continue
+        if isinstance(st, ast.AnnAssign) and isinstance(st.target, ast.Name):
+            continue
+        if isinstance(st, ast.Return) and st.value is not None:
+            rets.append(st)
+            continue
+        return None
+    if len(rets) != 1 or h.node.body[-1] is not rets[0]:
+        return None
+    binding = _bind_args(h, call)
+    marks = {p for p, arg in binding.items() if _is_label(fi, arg)}
+    h.__dict__.setdefault("_c11_label_params", set()).update(marks)
+    return h, rets[0].value
+
+
 def _is_label(fi: FunctionInfo, e: ast.expr) -> bool:
-    """``e`` is the footnote label of the token: ``<token>.meta["label"]`` or a single-assignment alias."""
+    """``e`` is the footnote label of the token: ``<token>.meta["label"]``, a single-assignment alias,
+    or (inside a followed helper) a parameter that receives it."""
+    if isinstance(e, ast.Name) and e.id in fi.__dict__.get("_c11_label_params", ()) and e.id in fi.params:
+        return True
     e = _deref(fi, e)
     return (
         isinstance(e, ast.Subscript)
@@ -304,6 +380,7 @@ def _elsewhere(corpus: Corpus, here: FunctionInfo, attr: str, target: str) -> No
 
 @rule("C11.R1")
 def r1_priorities_and_registration(corpus: Corpus, rep: Report, tier: str):
+    _use(corpus)
     rep.rule("C11.R1", "transform priorities bracket docutils' Footnotes; each transform registered exactly once per front end; Sphinx's own detector removed")
     base_prio = _docutils_footnotes_priority(corpus, rep)
     m = corpus.mod(TRANS)
@@ -396,6 +473,7 @@ REQUIRED_PLUGIN_OPTIONS = {
 
 @rule("C11.R5")
 def r5_plugin_options(corpus: Corpus, rep: Report, tier: str):
+    _use(corpus)
     rep.rule("C11.R5", "footnote_plugin is configured with inline=False, move_to_end=False, always_match_refs=True (effective values incl. library defaults)")
     f = corpus.func("parsers.mdit:create_md_parser")
     rep.saw_function(f.fq)
@@ -456,6 +534,7 @@ def _setting_reads(fi: FunctionInfo) -> list[ast.Attribute]:
 
 @rule("C11.R7")
 def r7_settings_plumbing(corpus: Corpus, rep: Report, tier: str):
+    _use(corpus)
     rep.rule("C11.R7", "every myst_footnote_* setting a transform reads is written unconditionally during render from the same-named config field")
     tm = corpus.mod(TRANS)
     reads: dict[str, list[tuple[FunctionInfo, ast.AST]]] = {}
@@ -516,16 +595,11 @@ def _classifier(fi: FunctionInfo):
     for n in fi.local_nodes():
         if not isinstance(n, ast.If):
             continue
-        t = n.test
-        pol = True
-        if isinstance(t, ast.Name):
-            t = _deref(fi, t)
-        while isinstance(t, ast.UnaryOp) and isinstance(t.op, ast.Not):
-            t, pol = t.operand, not pol
-        if isinstance(t, ast.Name):
-            t = _deref(fi, t)
-        if isinstance(t, ast.Call) and isinstance(t.func, ast.Attribute) and not t.args and not t.keywords and _is_label(fi, t.func.value):
+        ctx, t, pol = _strip_predicate(fi, n.test)
+        if isinstance(t, ast.Call) and isinstance(t.func, ast.Attribute) and not t.args and not t.keywords and _is_label(ctx, t.func.value):
             found.append((n, t.func.attr, pol))
+        elif _decides_membership(ctx, t):
+            continue  # the duplicate test, not a classification
         elif any(isinstance(x, ast.expr) and not isinstance(x, ast.Compare) and _is_label_use_in_call(fi, x) for x in ast.walk(n.test)):
             raise Unsupported(f"{fi.module.site(n)}: label classified by `{short(n.test, 60)}` (not a plain str predicate of the label)")
     if not found:
@@ -549,6 +623,34 @@ class Side:
 
     def __init__(self, name: str, must: list, avoid: list):
         self.name, self.must, self.avoid = name, must, avoid
+
+
+def _strip_predicate(fi: FunctionInfo, t: ast.expr, depth: int = 0):
+    """(context function, core expression, polarity) of a test after removing ``not``, local aliases
+    and value-only package helpers that receive the label."""
+    pol = True
+    ctx = fi
+    for _ in range(8):
+        if isinstance(t, ast.Name):
+            t2 = _deref(ctx, t)
+            if t2 is t:
+                break
+            t = t2
+        elif isinstance(t, ast.UnaryOp) and isinstance(t.op, ast.Not):
+            t, pol = t.operand, not pol
+        elif isinstance(t, ast.Call) and _is_label_use_in_call(ctx, t) and not (isinstance(t.func, ast.Attribute) and _is_label(ctx, t.func.value)):
+            entered = _enter_helper(ctx, t, depth)
+            if entered is None:
+                break
+            ctx, t = entered
+            depth += 1
+        else:
+            break
+    return ctx, t, pol
+
+
+def _decides_membership(ctx: FunctionInfo, t: ast.expr) -> bool:
+    return any(_membership_polarity(a, p, ctx) is not None for a, p in facts(t, True))
 
 
 def _is_label_use_in_call(fi: FunctionInfo, x: ast.expr) -> bool:
@@ -638,6 +740,7 @@ def _scan_def(fi: FunctionInfo) -> tuple[Events, str]:
 
 @rule("C11.R2")
 def r2_predicate_and_registries(corpus: Corpus, rep: Report, tier: str):
+    _use(corpus)
     rep.rule("C11.R2", "reference and definition branch on the same digit predicate of the same label and feed the matching registries on every path")
     ref, dfn = corpus.func(REF_FN), corpus.func(DEF_FN)
     rep.saw_function(ref.fq)
@@ -728,10 +831,13 @@ def _duplicate_test(fi: FunctionInfo):
         if not isinstance(n, ast.If):
             continue
         for edge in ("T", "F"):
-            for atom, pol in facts(n.test, edge == "T"):
-                mp = _membership_polarity(atom, pol, fi)
-                if mp is not None and mp[0]:
-                    found.append((n, (edge, n), atom))
+            for atom0, pol0 in facts(n.test, edge == "T"):
+                ctx, core, p = _strip_predicate(fi, atom0)
+                pol1 = pol0 if p else not pol0
+                for atom, pol in facts(core, pol1):
+                    mp = _membership_polarity(atom, pol, ctx)
+                    if mp is not None and mp[0]:
+                        found.append((n, (edge, n), atom, ctx))
     if len(found) != 1:
         mentions = [n for n in fi.local_nodes() if isinstance(n, ast.Compare) and any(isinstance(o, (ast.In, ast.NotIn)) for o in n.ops)]
         raise Unsupported(f"{fi.qualname}: expected exactly one branch taken when the label is already defined, found {len(found)} ({len(mentions)} membership tests)")
@@ -740,9 +846,10 @@ def _duplicate_test(fi: FunctionInfo):
 
 @rule("C11.R3")
 def r3_duplicate_path(corpus: Corpus, rep: Report, tier: str):
+    _use(corpus)
     rep.rule("C11.R3", "duplicate definition: exactly one [ref.footnote] warning, then return before any registry call, node construction or rendering")
     fi = corpus.func(DEF_FN)
-    n_if, edge, _ = _duplicate_test(fi)
+    n_if, edge, _, _ = _duplicate_test(fi)
     ev = Events(fi)
     for n in fi.local_nodes():
         if isinstance(n, ast.Call):
@@ -809,10 +916,11 @@ def _attrs_in_test(fi: FunctionInfo, test: ast.expr) -> set[str]:
 
 @rule("C11.R6")
 def r6_duplicate_test_registry_kind(corpus: Corpus, rep: Report, tier: str):
+    _use(corpus)
     rep.rule("C11.R6", "'duplicate footnote definition' is decided against footnote registries, not the document-wide name/id tables")
     fi = corpus.func(DEF_FN)
-    n_if, edge, atom = _duplicate_test(fi)
-    attrs = _attrs_in_test(fi, atom)
+    n_if, edge, atom, tctx = _duplicate_test(fi)
+    attrs = _attrs_in_test(tctx, atom)
     flat = sorted(attrs & FLAT_TABLES)
     regs = sorted(attrs & FOOTNOTE_REGISTRIES)
     site = fi.module.site(n_if)
@@ -1004,6 +1112,7 @@ def _sorter_model(sf: FunctionInfo) -> list[tuple[ast.AST, ast.expr | None, str 
 
 @rule("C11.R4")
 def r4_collector(corpus: Corpus, rep: Report, tier: str):
+    _use(corpus)
     rep.rule("C11.R4", "collector: guarded by myst_footnote_sort only; gathers footnotes+autofootnotes; each moved once (detach, then attach to the document) in ascending key order; one transition under myst_footnote_transition, attached to the document before the footnotes; sorter sorts autofootnotes once")
     fi = corpus.func(f"{TRANS}:CollectFootnotes.apply")
     rep.saw_function(fi.fq)
@@ -1366,6 +1475,7 @@ def _fmt_kind(k) -> str:
 
 @rule("C11.R8")
 def r8_total_order_key(corpus: Corpus, rep: Report, tier: str):
+    _use(corpus)
     rep.rule("C11.R8", "footnote sort keys are total: one comparable kind on all returns, or every label the renderer can create converts with int()")
     _, pred, _, _ = _classifier(corpus.func(DEF_FN))
     sites = []
@@ -1414,6 +1524,7 @@ def r8_total_order_key(corpus: Corpus, rep: Report, tier: str):
 
 @rule("C11.R9")
 def r9_transition_placement(corpus: Corpus, rep: Report, tier: str):
+    _use(corpus)
     rep.rule("C11.R9", "the footnote transition is attached only after inspecting the document's existing children: not first, not next to another transition")
     fi = corpus.func(f"{TRANS}:CollectFootnotes.apply")
     cfg = get_cfg(fi)
@@ -1547,6 +1658,7 @@ def _occurrence_picked(kf: FunctionInfo, e: ast.expr) -> tuple[str, ast.AST]:
 
 @rule("C11.R10")
 def r10_first_reference_order(corpus: Corpus, rep: Report, tier: str):
+    _use(corpus)
     rep.rule("C11.R10", "SortFootnotes ranks an auto-numbered footnote by the position of its FIRST reference in document.autofootnote_refs")
     sf = corpus.func(f"{TRANS}:SortFootnotes.apply")
     n_ranked = 0
